@@ -2738,8 +2738,21 @@ V(id='c15-mpc-outward-allowance-inward', prop='C15', file='mpmath/libmp/libmpi.p
   new="    if rounding == round_floor:\n        return mpf_add(x, delta, prec, round_floor)\n    return mpf_sub(x, delta, prec, round_ceiling)\n",
   expect='fire:C-R19c:mpc_outward')
 V(id='c15-mpc-outward-short-values-pass', prop='C15', file='mpmath/libmp/libmpi.py',
-  old="    if not mags or (not x[1] and x[2]):\n        return x\n", new="    if not mags or (not x[1] and x[2]) or x[3] <= prec:\n        return x\n",
+  old="    if not mags:\n        return x\n", new="    if not mags or x[3] <= prec:\n        return x\n",
   expect='fire:C-R19c:mpc_outward')
+# ---- C15 C-R22 (fourth hunt; fix 7e680cc) ----
+_C15_SPECIAL = ("    if [t for t in v if not t[1] and t[2]]:\n        # an infinite or undefined part (a corner at infinity): there is\n"
+                "        # no bound in this direction\n        if rounding == round_floor:\n            return fninf\n        return finf\n")
+V(id='c15-mpc-outward-special-part-passed-on', prop='C15', file='mpmath/libmp/libmpi.py',
+  edits=[(_C15_SPECIAL, ""), ("    if not mags:\n        return x\n", "    if not mags or (not x[1] and x[2]):\n        return x\n")],
+  expect='fire:C-R22:mpc_outward')
+V(id='c15-mpc-outward-no-special-test', prop='C15', file='mpmath/libmp/libmpi.py',
+  old=_C15_SPECIAL, new="", expect='fire:C-R22:mpc_outward')
+V(id='c15-mpc-outward-infinite-bounds-swapped', prop='C15', file='mpmath/libmp/libmpi.py',
+  old="        if rounding == round_floor:\n            return fninf\n        return finf\n",
+  new="        if rounding == round_floor:\n            return finf\n        return fninf\n", expect='fire:C-R22:mpc_outward')
+V(id='c15-mpc-outward-special-test-own-part-only', prop='C15', file='mpmath/libmp/libmpi.py',
+  old="    if [t for t in v if not t[1] and t[2]]:\n", new="    if not x[1] and x[2]:\n", expect='silent')
 V(id='c15-benign-mpc-outward-more-allowance', prop='C15', file='mpmath/libmp/libmpi.py',
   old="    delta = (0, MPZ_ONE, max(mags) + 10 - wp, 1)\n", new="    delta = (0, MPZ_ONE, max(mags) + 12 - wp, 1)\n",
   expect='silent')
